@@ -3,6 +3,7 @@
    entirely inside its parent" is FALSE for the library as it stands (Properties/C07Findings.v,
    known findings C07-overrun-...); the theorems below are the parts that hold. *)
 From NDN Require Import Base.Prelude Model.TlvVar Model.Name Model.Tlv Model.Packet Spec.StrictTlv Spec.TlvWf.
+From NDN Require Import Model.TlvChecked Proofs.PacketChecked.
 From NDN Require Import Proofs.TlvMore Proofs.PacketDecode Proofs.PacketTotal Proofs.PacketProps Proofs.TlvVarBridge.
 Local Open Scope N_scope.
 
@@ -37,6 +38,38 @@ Theorem C07_accept_implies_strict_partial fuel w els :
   elements fuel w = Ok els -> Forall exact els -> strict_elements fuel w = Some els.
 Proof. exact (elements_exact_strict fuel w els). Qed.
 Print Assumptions C07_accept_implies_strict_partial.
+
+(* the converse at EVERY depth, stated against the decoder plus ONE check (Model/TlvChecked.v: the library's
+   decoder verbatim, except that an element declaring a Length beyond what is left of its parent is refused --
+   the check whose absence is the known finding): that decoder accepts EXACTLY the strictly well-formed packets,
+   with the same fields, and it refines the library's decoder.  Hence: accepted by the library, and no
+   end-of-parent check would have fired => strictly well-formed, same fields. *)
+Theorem C07_checked_iff_strict d fs ic w vs : parse_model_c d fs ic w = Ok vs <-> strict_model d fs ic w = Ok vs.
+Proof. exact (checked_iff_strict d fs ic w vs). Qed.
+Print Assumptions C07_checked_iff_strict.
+Theorem C07_checked_refines d fs ic w vs : parse_model_c d fs ic w = Ok vs -> parse_model d fs ic w = Ok vs.
+Proof. exact (checked_refines d fs ic w vs). Qed.
+Theorem C07_checked_iff_strict_interest w vs : dec_interest_c w = Ok vs <-> strict_interest w = Ok vs.
+Proof. exact (interest_c_iff w vs). Qed.
+Theorem C07_checked_iff_strict_data w vs : dec_data_c w = Ok vs <-> strict_data w = Ok vs.
+Proof. exact (data_c_iff w vs). Qed.
+Theorem C07_checked_iff_strict_cert w vs : dec_cert_c w = Ok vs <-> strict_cert w = Ok vs.
+Proof. exact (cert_c_iff w vs). Qed.
+Theorem C07_checked_iff_strict_lp w vs : dec_lp_c w = Ok vs <-> strict_lp w = Ok vs.
+Proof. exact (lp_c_iff w vs). Qed.
+Theorem C07_accept_no_overrun_strict_interest w vs :
+  dec_interest w = Ok vs -> (exists vs', dec_interest_c w = Ok vs') -> strict_interest w = Ok vs.
+Proof. exact (accept_no_overrun_interest w vs). Qed.
+Theorem C07_accept_no_overrun_strict_data w vs :
+  dec_data w = Ok vs -> (exists vs', dec_data_c w = Ok vs') -> strict_data w = Ok vs.
+Proof. exact (accept_no_overrun_data w vs). Qed.
+Theorem C07_accept_no_overrun_strict_cert w vs :
+  dec_cert w = Ok vs -> (exists vs', dec_cert_c w = Ok vs') -> strict_cert w = Ok vs.
+Proof. exact (accept_no_overrun_cert w vs). Qed.
+Theorem C07_accept_no_overrun_strict_lp w vs :
+  dec_lp w = Ok vs -> (exists vs', dec_lp_c w = Ok vs') -> strict_lp w = Ok vs.
+Proof. exact (accept_no_overrun_lp w vs). Qed.
+Print Assumptions C07_accept_no_overrun_strict_interest.
 
 (* mandatory name *)
 Theorem C07_name_mandatory_interest w vs :
